@@ -50,4 +50,36 @@ NOT_APPLICABLE = {
     "C20": "purity across compiler processes / hash seeds / invocation order: a whole-history property over ambient state; contracts give per-call functional determinism only for the functions under contract, and no frame condition covers the unverified assemblers, syn, quote and HashSet (DESIGN.md section 4)",
 }
 
-MANIFEST_TEXT = {}
+_NOTE = ("Trusted: Verus/Z3, Kani/CBMC, rustc; the assumed dependency contracts in specs/prelude.rs (conformance-tested, not proved); "
+         "normalisations N1-N7; A0 (token-level facts imply the behavioural statement via the Rust reference). "
+         "Functions built on quote!/parse_quote!/ParseStream are covered by bounded replay only, labelled bounded, never counted as proved.")
+
+
+def _t(text, technique=None, note=None):
+    d = {"text": text, "note": note or _NOTE}
+    if technique:
+        d["technique"] = technique
+    return d
+
+
+_V = "Verus contracts on the real function text"
+MANIFEST_TEXT = {
+    "C01": _t("Proof (Verus, unbounded) that the pieces of the delegating body are what the property says: `self ,` receiver argument, `.await` iff the source fn was async, async flag taken from the signature, receiver-generation kind; the way gen_delegating_fn_item puts them together (own ident, declared parameters in order, one call) is a bounded stand-in over enumerated signatures.", _V + " + bounded contract replay of the quote!-based assembler"),
+    "C02": _t("Proof that every ToTokens impl of input.rs re-emits attributes, visibility, signature and raw body / raw tokens in order and nothing else (unbounded over item lists); parse-then-emit and the assemblers' prefix property are a bounded stand-in over an item alphabet.", _V + " + bounded contract replay of the parsers and assemblers"),
+    "C03": _t("Only the second sentence (same call type) is decided; 'expands to compiling code' is a fact about rustc. Proof for generics lifting (deps_with_generics), argument / where-clause emitters, tidy_generics; signature conversion is a bounded stand-in.", _V + " + bounded contract replay"),
+    "C04": _t("Proof, for every list of trait fns with every list of bounds, that the impl where clause is exactly `Self: B1 + .. + Bn` over all declared bounds in order (absent iff none), the impl generics are `EntraitT: ::core::marker::Sync [+ Send] + 'static`, the self type follows mockable(); how bounds are collected from the signature and the header assembled is a bounded stand-in.", _V + " (nested loops, Punctuator invariant) + bounded contract replay"),
+    "C05": _t("Proof that the dependency kind is decided by the first parameter type after peeling references / parentheses, that the first concrete dependency selects leaf-trait mode for a single fn and the two documented diagnostics for mod / impl block, and that the nested attribute is `::entrait::entrait(unimock = false, mockall = false)`; attachment in gen_trait_def is a bounded stand-in.", _V + " + bounded contract replay"),
+    "C06": _t("Proof of the exact bounds on T per delegation kind, of the delegating method shell (mirrored attributes, signature, `{ call [.await] }`) and of analyze_trait (one TraitFn per method, in order, unchanged); the forwarding call text per kind is a bounded stand-in.", _V + " + bounded contract replay"),
+    "C07": _t("Proof of the Static / Dynamic bounds, `EntraitT` as first trait argument, the impl block's own type as self type and `Impl<EntraitT>: bounds` for further dependencies; target-trait generation and the inversion call are a bounded stand-in.", _V + " + bounded contract replay"),
+    "C08": _t("Proof of filter_pub_fn and of the `pub(super)` rule of TraitVisibility; classification of module items (which items are visible fns with a body) is a bounded stand-in over an item alphabet.", _V + " + bounded contract replay of ModItem::parse"),
+    "C09": _t("Proof that analyze_trait carries attributes, visibility, name, generics, where predicates, supertraits and every method's attributes and signature unchanged; re-emission is a bounded stand-in. Three known findings (default bodies, associated types, `unsafe`).", _V + " + bounded contract replay"),
+    "C10": _t("Proof of the option kernel, of `#[P]` vs `#[cfg_attr(test, P)]` vs nothing in ExportGatedAttr, of the emptiness rule of the unimock parameters; Kani proof (complete for N = 1, 2) of set_fallbacks and of the four entry-point option modifiers; the attribute selection in gen_trait_def is checked over the full 1152-point lattice (bounded stand-in, exhaustive).", _V + " + Kani harnesses on extracted text + exhaustive lattice replay"),
+    "C11": _t("Proof of the exact unimock attribute parameters (prefix, api / [api], unmock_with entries `f` / `_` / `f(a, b)` in trait-method order, omitted for traits and empty modules), unbounded over fn lists and parameter lists. What unimock does with them is a dependency's behaviour.", _V + " (nested closures and two Punctuator loops)"),
+    "C12": _t("Proof of future_send(), `.await` emission, async_trait detection, the AsyncTraitParams path; the async rewrite of make_trait_fn_sig (Output type, Send unless ?Send, async_trait kept) is a bounded stand-in over input modes x return types.", _V + " + bounded contract replay"),
+    "C13": _t("Proof of TraitVisibility (exactly the requested visibility, `pub(super)` for private traits of mod / impl inputs); attribute parsing, the re-export and the delegation-target trait visibility are a bounded stand-in.", _V + " + bounded contract replay"),
+    "C15": _t("Partial. Proof that the functions under contract cannot panic (Verus checks every panic!, unwrap, overflow under the stated preconditions) and return the documented diagnostics (analyze_fn_deps, extract_deps_from_type, detect_trait_dependency_mode, analyze_trait); parsers and assemblers are replayed over a catalogue of misuses, odd items, malformed option lists and parameter patterns (bounded).", _V + " + bounded contract replay"),
+    "C16": _t("Bounded only: the contract of fix_fn_param_idents is evaluated on the real function over every pattern list up to length 4 (5 thorough) of the property's own alphabet - which is the property's own quantifier. Not a proof.", "bounded contract replay (exhaustive small scope); no deductive part: strings, HashSet and visit_mut are outside Verus' reach"),
+    "C17": _t("Proof of the option accessors (defaults of the table); Kani proof of the variant fallbacks; parsers (bare = true, false = absent, order independence, accepted sets, variants as shorthands) are a bounded stand-in, exhaustive over the stated option sets.", _V + " + Kani harnesses + bounded contract replay of the parsers"),
+    "C18": _t("Proof that sub-attributes are re-emitted verbatim, that trait-method attributes are mirrored first and in order, that fn / mod / impl inputs start with an empty attribute list; placement on fn / trait / impl / parameters is a bounded stand-in. One known finding (cfg-disabled fns).", _V + " + bounded contract replay"),
+    "C19": _t("Proof that every emitter under contract spells macro-owned references absolutely (`::entrait::Impl<EntraitT>`, `::core::marker::{Sync,Send}`, `::core::convert::AsRef`, `::core::borrow::Borrow`, `::entrait::__unimock::unimock`, `::entrait::__async_trait::async_trait`, `::mockall::automock`, `::entrait::entrait`); quote!-emitted paths are a bounded stand-in. 'Compiles in a hostile scope / no_std' is rustc's.", _V + " + bounded contract replay"),
+}
